@@ -265,6 +265,12 @@ def deByName : Fields → String → Json → Nat → Option Val
 end
 
 /-! ## typing of values -/
+/-- `#[serde(untagged)]` reads with the FIRST alternative that accepts: variant `i` reads back as itself only when no
+earlier alternative accepts what it wrote. -/
+def earlierReject : Fields → Nat → Json → Bool
+  | .cons _ _ s tl, i + 1, j => (de s j).isNone && earlierReject tl i j
+  | _, _, _ => true
+
 def disjointB (a b : List String) : Bool := a.all (fun x => !b.contains x)
 
 mutual
@@ -284,7 +290,7 @@ def hasType : Schema → Val → Bool
             (if rest then decide (keys r).Nodup && disjointB (keys r) (allNames fs) else r.isEmpty)
         | _ => false)
   | .unitEnum names, v => (match v with | .var i .none => decide (i < names.length) | _ => false)
-  | .untagged alts, v => (match v with | .var i x => typedAlt alts i x | _ => false)
+  | .untagged alts, v => (match v with | .var i x => typedAlt alts i x && earlierReject alts i (serAlt alts i x) | _ => false)
   | .adjacent _ _ alts, v => (match v with | .var i x => typedAlt alts i x | _ => false)
   | .internal _ alts, v => (match v with | .var i x => typedAlt alts i x | _ => false)
 def typedFields : Fields → List Val → Bool
@@ -328,7 +334,7 @@ def wf : Schema → Bool
   | .seq s _ => wf s
   | .struct fs _ => wfFields fs && decide (allNames fs).Nodup
   | .unitEnum names => decide names.Nodup
-  | .untagged alts => wfAlts alts && wfDisjoint alts
+  | .untagged alts => wfAlts alts
   | .adjacent t c alts => decide (t ≠ c) && wfAlts alts && decide (altNames alts).Nodup
   | .internal t alts => wfAlts alts && wfInternal t alts && decide (altNames alts).Nodup
 def wfFields : Fields → Bool
@@ -345,6 +351,22 @@ def wfDisjoint : Fields → Bool
 def wfInternal : String → Fields → Bool
   | _, .nil => true
   | t, .cons _ _ s tl => closedStruct s && !(namesOf s).contains t && wfInternal t tl
+end
+
+/- static sufficient condition for "every typed value is canonical": wherever `#[serde(untagged)]` occurs, the JSON kinds an
+alternative can produce are rejected by all earlier alternatives (`wfDisjoint`). -/
+mutual
+def strict : Schema → Bool
+  | .opt s => strict s
+  | .seq s _ => strict s
+  | .struct fs _ => strictFields fs
+  | .untagged alts => strictFields alts && wfDisjoint alts
+  | .adjacent _ _ alts => strictFields alts
+  | .internal _ alts => strictFields alts
+  | _ => true
+def strictFields : Fields → Bool
+  | .nil => true
+  | .cons _ _ s tl => strict s && strictFields tl
 end
 
 end GmQuic.Model.Json
